@@ -17,13 +17,10 @@ adjoining margins; the container has a top padding, so nothing collapses through
 The observable output is the margin box of every float, the position and width of every line box,
 the border box of every BFC root and the top of every plain block.
 
-Two float lists.  `context.excluded_shapes` (here `attr`) is an attribute that normally *is* the list on top of
-`context._excluded_shapes_lists` (here `top`).  `get_next_linebox` re-binds the attribute to a copy taken before
-its loop when it starts the line again (`context.excluded_shapes = excluded_shapes`), but the stack still holds the
-list the first pass appended to; every `finish_block_formatting_context` (end of the layout of a float, of an
-inline-block, of a BFC root, of a table cell) re-binds the attribute to the stack's top.  So after a restart the
-floats that the abandoned pass laid out come back (finding inline-float-laid-out-twice).  The model therefore
-carries both lists; they are equal except after such a restart.
+One float list.  `context.excluded_shapes` is the list on top of `context._excluded_shapes_lists`; when
+`get_next_linebox` starts a line again it restores the floats *in place* from the copy taken before its loop
+(`context.excluded_shapes[:] = excluded_shapes`, 58d1f9d), so the attribute and the stack's top are always the
+same list and the floats laid out by an abandoned pass are gone.
 -/
 import WpModel.Model.Floats
 import WpModel.Model.Absolute
@@ -40,8 +37,6 @@ structure LineSpec where
   w : Rat
   h : Rat
   floats : List ABox
-  /-- the line's content is an inline-block: its layout ends with `finish_block_formatting_context` -/
-  bfc : Bool := false
   deriving Repr, Inhabited
 
 /-- `text-align` (`text_align_all`; `text-align-last` is auto). -/
@@ -158,56 +153,41 @@ def clearedTop (shapes : List Shape) (c : Clear) (y cm : Rat) : Rat × Bool :=
   | some cl => (y + cm + cl, true)
   | none => (y + cm, false)
 
-/-- `float_layout` with the two float lists: `get_clearance` reads `context.excluded_shapes` (`attr`); the layout
-of the float's content ends with `finish_block_formatting_context`, which re-binds `context.excluded_shapes` to the
-top of the stack (`top`); `find_float_position` and `excluded_shapes.append` then work on that list.  Returns the
-placed box and the new list (which is both the attribute and the stack's top afterwards). -/
-def floatLayout (attr top : List Shape) (b : ABox) (cb : CB) : Except PyErr (ABox × List Shape) :=
-  let b1 := afterClearance attr b
-  match findFloatPosition top b1 cb with
-  | .error e => .error e
-  | .ok (x, y) =>
-    let b2 := { b1 with px := x, py := y }
-    .ok (b2, top ++ [b2.toShape])
-
 /-- `_out_of_flow_layout` of layout/inline.py, first pass over the floats met in a line: a float whose
 width exceeds what is left of the line (`max_x - position_x`), or that comes after a float already
 waiting, waits for the end of the line; the others are laid out at once at the line's top
-(`float_layout`), and `max_x` shrinks by their margin width.  Returns `(attr, top, marks)`. -/
+(`float_layout`), and `max_x` shrinks by their margin width. -/
 def inlinePass1 (cb : CB) (lineY : Rat) :
-    List Shape → List Shape → Rat → Bool → List ABox →
-      Except PyErr (List Shape × List Shape × List (ABox × Option (Rat × Rat × Rat × Rat)))
-  | attr, top, _, _, [] => .ok (attr, top, [])
-  | attr, top, rem, waiting, b :: bs =>
+    List Shape → Rat → Bool → List ABox → Except PyErr (List Shape × List (ABox × Option (Rat × Rat × Rat × Rat)))
+  | shapes, _, _, [] => .ok (shapes, [])
+  | shapes, rem, waiting, b :: bs =>
     if decide (b.bw > rem) || waiting then
-      match inlinePass1 cb lineY attr top rem true bs with
+      match inlinePass1 cb lineY shapes rem true bs with
       | .error e => .error e
-      | .ok (attr', top', out) => .ok (attr', top', (b, none) :: out)
+      | .ok (shapes', out) => .ok (shapes', (b, none) :: out)
     else
-      match floatLayout attr top { b with px := cb.cx, py := lineY } cb with
+      match floatPlace shapes { b with px := cb.cx, py := lineY } cb with
       | .error e => .error e
-      | .ok (b', top1) =>
-        match inlinePass1 cb lineY top1 top1 (rem - b.marginWidth) false bs with
+      | .ok (b', shapes1) =>
+        match inlinePass1 cb lineY shapes1 (rem - b.marginWidth) false bs with
         | .error e => .error e
-        | .ok (attr', top', out) =>
-          .ok (attr', top', (b, some (b'.px, b'.py, b'.marginWidth, b'.marginHeight)) :: out)
+        | .ok (shapes', out) => .ok (shapes', (b, some (b'.px, b'.py, b'.marginWidth, b'.marginHeight)) :: out)
 
 /-- `get_next_linebox`, end of the line: the waiting floats are laid out, in order, at the line's bottom. -/
 def inlinePass2 (cb : CB) (lineBottom : Rat) :
-    List Shape → List Shape → List (ABox × Option (Rat × Rat × Rat × Rat)) →
-      Except PyErr (List Shape × List Shape × List (Rat × Rat × Rat × Rat))
-  | attr, top, [] => .ok (attr, top, [])
-  | attr, top, (_, some r) :: rest =>
-    match inlinePass2 cb lineBottom attr top rest with
+    List Shape → List (ABox × Option (Rat × Rat × Rat × Rat)) → Except PyErr (List Shape × List (Rat × Rat × Rat × Rat))
+  | shapes, [] => .ok (shapes, [])
+  | shapes, (_, some r) :: rest =>
+    match inlinePass2 cb lineBottom shapes rest with
     | .error e => .error e
-    | .ok (attr', top', out) => .ok (attr', top', r :: out)
-  | attr, top, (b, none) :: rest =>
-    match floatLayout attr top { b with px := cb.cx, py := lineBottom } cb with
+    | .ok (shapes', out) => .ok (shapes', r :: out)
+  | shapes, (b, none) :: rest =>
+    match floatPlace shapes { b with px := cb.cx, py := lineBottom } cb with
     | .error e => .error e
-    | .ok (b', top1) =>
-      match inlinePass2 cb lineBottom top1 top1 rest with
+    | .ok (b', shapes1) =>
+      match inlinePass2 cb lineBottom shapes1 rest with
       | .error e => .error e
-      | .ok (attr', top', out) => .ok (attr', top', (b'.px, b'.py, b'.marginWidth, b'.marginHeight) :: out)
+      | .ok (shapes', out) => .ok (shapes', (b'.px, b'.py, b'.marginWidth, b'.marginHeight) :: out)
 
 /-- `text_align(context, line, available_width, last)` of layout/inline.py for the non-justifying values:
 the horizontal offset of a line of width `w` in `avail`. -/
@@ -225,7 +205,6 @@ def textAlign (a : Align) (rtl : Bool) (w avail : Rat) : Rat :=
 /-- What one pass of the `while True` loop of `get_next_linebox` produces. -/
 structure LineTry where
   shapes : List Shape                                         -- `context.excluded_shapes` after the pass
-  top : List Shape                                            -- top of `context._excluded_shapes_lists`
   marks : List (ABox × Option (Rat × Rat × Rat × Rat))        -- floats of the line: laid out / waiting
   x : Rat                                                     -- `line.position_x` after `text_align`
   y : Rat
@@ -233,21 +212,20 @@ structure LineTry where
 
 /-- The `while True` loop of `get_next_linebox`, from the position `(px, py, avail)` returned by the
 previous `avoid_collisions`; `lbw` = `linebox.width` on entry, `cand` = `candidate_height`; `shapes0` =
-the copy of `excluded_shapes` taken before the loop; `attr` / `top` = `context.excluded_shapes` and the top of
-the stack at the start of this pass (`attr` is `shapes0` from the second pass on, `top` keeps what the abandoned
-passes appended).
-One pass: `split_inline_box` (an inline-block re-binds `attr` to `top`; the floats met in the line are laid out or
-deferred), `avoid_collisions` on the laid-out line box for the width that `text_align` distributes, stop if the
-line is not higher than the candidate height; otherwise try the real line against the floats that existed before
-the line and stop if it stays where it is, else start again from the new position with
-`context.excluded_shapes = excluded_shapes`. -/
+the copy of `excluded_shapes` taken before the loop, which is also the content of the list at the start of every
+pass (`context.excluded_shapes[:] = excluded_shapes` before a restart).
+One pass: `split_inline_box` (the floats met in the line are laid out or deferred), `avoid_collisions`
+on the laid-out line box for the width that `text_align` distributes, stop if the line is not higher
+than the candidate height; otherwise try the real line against the floats that existed before the line
+and stop (keeping the floats of this pass: `context.excluded_shapes[:] = new_excluded_shapes`) if it stays where
+it is, else start again from the new position. -/
 def lineLoop (cb : CB) (strut : Rat) (align : Align) (l : LineSpec) (shapes0 : List Shape) :
-    Nat → List Shape → List Shape → Rat → Rat → Rat → Rat → Rat → Except PyErr LineTry
-  | 0, _, _, _, _, _, _, _ => .error (.recursion "get_next_linebox:loop")
-  | fuel + 1, attr, top, px, py, avail, lbw, cand =>
-    match inlinePass1 cb py (if l.bfc then top else attr) top (avail - l.w) false l.floats with
+    Nat → Rat → Rat → Rat → Rat → Rat → Except PyErr LineTry
+  | 0, _, _, _, _, _ => .error (.recursion "get_next_linebox:loop")
+  | fuel + 1, px, py, avail, lbw, cand =>
+    match inlinePass1 cb py shapes0 (avail - l.w) false l.floats with
     | .error e => .error e
-    | .ok (shapes1, top1, marks) =>
+    | .ok (shapes1, marks) =>
       -- `linebox.width, linebox.height = line.width, line.height`: at this point the height of the line
       -- returned by `split_inline_box` is still the strut's line height (`line_box_verticality` comes later)
       let split : ABox := ⟨px, py, 0, 0, 0, 0, l.w, strut, .none, .none, .line⟩
@@ -257,49 +235,46 @@ def lineLoop (cb : CB) (strut : Rat) (align : Align) (l : LineSpec) (shapes0 : L
       | .ok p2 =>
         let off := textAlign align cb.rtl l.w p2.avail
         let x := if cb.rtl then px + (-off - l.w) else px + off
-        if l.h ≤ cand then .ok ⟨shapes1, top1, marks, x, py⟩ else
+        if l.h ≤ cand then .ok ⟨shapes1, marks, x, py⟩ else
         match avoidCollisions shapes0 laid cb false with
         | .error e => .error e
         | .ok p3 =>
           let same := if !cb.rtl then p3.x = px ∧ p3.y = py else p3.x + l.w = px + lbw ∧ p3.y = py
-          if same then .ok ⟨shapes1, top1, marks, x, py⟩
-          else lineLoop cb strut align l shapes0 fuel shapes0 top1 p3.x p3.y p3.avail l.w l.h
+          if same then .ok ⟨shapes1, marks, x, py⟩
+          else lineLoop cb strut align l shapes0 fuel p3.x p3.y p3.avail l.w l.h
 
 /-- `get_next_linebox` for one line starting at `y`: the first `avoid_collisions` is made with the
 min-content width of the line's first word and the strut height when floats exist, and with an empty
 box otherwise. -/
-def nextLinebox (cb : CB) (strut : Rat) (align : Align) (shapes top : List Shape) (l : LineSpec) (y : Rat) :
+def nextLinebox (cb : CB) (strut : Rat) (align : Align) (shapes : List Shape) (l : LineSpec) (y : Rat) :
     Except PyErr LineTry :=
   let w0 := if shapes.isEmpty then 0 else l.w0
   let h0 := if shapes.isEmpty then 0 else strut
   let first : ABox := ⟨cb.cx, y, 0, 0, 0, 0, w0, h0, .none, .none, .line⟩
   match avoidCollisions shapes first cb false with
   | .error e => .error e
-  | .ok p => lineLoop cb strut align l shapes 3 shapes top p.x p.y p.avail w0 h0
+  | .ok p => lineLoop cb strut align l shapes 3 p.x p.y p.avail w0 h0
 
-/-- The line boxes of a paragraph starting at `y`; `(attr, top)` on entry and on exit. -/
+/-- The line boxes of a paragraph starting at `y`. -/
 def layoutLines (cb : CB) (fs : Rat) (align : Align) :
-    List Shape → List Shape → List LineSpec → Rat →
-      Except PyErr (List Shape × List Shape × List PlacedLine × Rat)
-  | shapes, top, [], y => .ok (shapes, top, [], y)
-  | shapes, top, l :: ls, y =>
-    match nextLinebox cb fs align shapes top l y with
+    List Shape → List LineSpec → Rat → Except PyErr (List Shape × List PlacedLine × Rat)
+  | shapes, [], y => .ok (shapes, [], y)
+  | shapes, l :: ls, y =>
+    match nextLinebox cb fs align shapes l y with
     | .error e => .error e
     | .ok t =>
       -- the floats laid out on the line stay where `float_layout` put them: `line_box_verticality` skips
       -- floats and `line.translate(offset_x, offset_y, ignore_floats=True)` does not move them
-      match inlinePass2 cb (t.y + l.h) t.shapes t.top t.marks with
+      match inlinePass2 cb (t.y + l.h) t.shapes t.marks with
       | .error e => .error e
-      | .ok (shapes2, top2, rects) =>
-        match layoutLines cb fs align shapes2 top2 ls (t.y + l.h) with
+      | .ok (shapes2, rects) =>
+        match layoutLines cb fs align shapes2 ls (t.y + l.h) with
         | .error e => .error e
-        | .ok (shapes3, top3, rest, y') => .ok (shapes3, top3, ⟨t.x, t.y, l.w, l.h, rects⟩ :: rest, y')
+        | .ok (shapes3, rest, y') => .ok (shapes3, ⟨t.x, t.y, l.w, l.h, rects⟩ :: rest, y')
 
-/-- State of the flow: `context.excluded_shapes`, the top of `context._excluded_shapes_lists` (the same list
-except after a line was started again, see the header), the parent's `position_y`, the adjoining margins. -/
+/-- State of the flow: floats so far, the parent's `position_y`, the adjoining margins. -/
 structure FlowState where
   shapes : List Shape
-  top : List Shape
   y : Rat
   adj : List Rat
   deriving Repr, Inhabited
@@ -307,10 +282,10 @@ structure FlowState where
 /-- A block-level float: `_out_of_flow_layout`: `child.position_y += collapse_margin(adjoining_margins)`,
 then `float_layout`. -/
 def flowFloat (cb : CB) (st : FlowState) (b : ABox) : Except PyErr (FlowState × Placed) :=
-  match floatLayout st.shapes st.top { b with px := cb.cx, py := st.y + collapseMargin st.adj } cb with
+  match floatPlace st.shapes { b with px := cb.cx, py := st.y + collapseMargin st.adj } cb with
   | .error e => .error e
   | .ok (b', shapes') =>
-    .ok ({ st with shapes := shapes', top := shapes' }, .float b'.px b'.py b'.marginWidth b'.marginHeight)
+    .ok ({ st with shapes := shapes' }, .float b'.px b'.py b'.marginWidth b'.marginHeight)
 
 /-- One child of the container: new state, what was placed. -/
 def flowStep (cb : CB) (st : FlowState) : Item → Except PyErr (FlowState × Placed)
@@ -318,9 +293,9 @@ def flowStep (cb : CB) (st : FlowState) : Item → Except PyErr (FlowState × Pl
   | .floatSpec f => flowFloat cb st (floatResolve f cb.w)
   | .para c fs align lines mt mb =>
     let top := clearedTop st.shapes c st.y (collapseMargin (st.adj ++ [mt]))
-    match layoutLines cb fs align st.shapes st.top lines top.1 with
+    match layoutLines cb fs align st.shapes lines top.1 with
     | .error e => .error e
-    | .ok (shapes', top', placed, y') => .ok (⟨shapes', top', y', [mb]⟩, .para placed)
+    | .ok (shapes', placed, y') => .ok (⟨shapes', y', [mb]⟩, .para placed)
   | .bfc c width h ml mr mt mb =>
     let top := clearedTop st.shapes c st.y (collapseMargin (st.adj ++ [mt]))
     -- block_level_width: auto width fills the containing block
@@ -328,33 +303,27 @@ def flowStep (cb : CB) (st : FlowState) : Item → Except PyErr (FlowState × Pl
       | some w => w
       | none => cb.w - (ml + mr)
     let box : ABox := ⟨cb.cx, top.1 - mt, mt, mb, ml, mr, w, h, .none, c, .bfc⟩
-    -- `block_box_layout`: `avoid_collisions` comes after `block_container_layout`, whose
-    -- `finish_block_formatting_context` has re-bound `context.excluded_shapes` to the stack's top
-    match avoidCollisions st.top box cb false with
+    match avoidCollisions st.shapes box cb false with
     | .error e => .error e
     | .ok p =>
       -- `_in_flow_layout`: a box of height 0 without paddings / borders / margins "collapses through":
       -- the parent's `position_y` does not advance, unless the box has clearance (then it restarts below
       -- the box).  A BFC root has already consumed the adjoining margins for its own position, so the
       -- parent continues with `[margin_bottom]` only (the margin of the previous sibling is forgotten).
-      let st' : FlowState :=
-        if h = 0 && !top.2 then ⟨st.top, st.top, st.y, [mb]⟩ else ⟨st.top, st.top, p.y + mt + h, [mb]⟩
+      let st' : FlowState := if h = 0 && !top.2 then ⟨st.shapes, st.y, [mb]⟩ else ⟨st.shapes, p.y + mt + h, [mb]⟩
       .ok (st', .bfc (p.x + ml) (p.y + mt) w h)
   | .block c h mt mb =>
     let top := clearedTop st.shapes c st.y (collapseMargin (st.adj ++ [mt]))
-    let st' : FlowState := if h = 0 && !top.2 then st else ⟨st.shapes, st.top, top.1 + h, [mb]⟩
+    let st' : FlowState := if h = 0 && !top.2 then st else ⟨st.shapes, top.1 + h, [mb]⟩
     .ok (st', .block top.1)
   | .replaced kind c w h ml mr =>
     -- `block_replaced_box_layout` / `block_box_layout` of a table wrapper: positioned by
-    -- `avoid_collisions(outer=False)`; never collapses through; no vertical margins here.  A table's cell is
-    -- laid out first (`finish_block_formatting_context`: the stack's top is current again); an image has no
-    -- content to lay out
+    -- `avoid_collisions(outer=False)`; never collapses through; no vertical margins here
     let top := clearedTop st.shapes c st.y (collapseMargin (st.adj ++ [0]))
-    let cur := if kind = .tableWrapper then st.top else st.shapes
     let box : ABox := ⟨cb.cx, top.1, 0, 0, ml, mr, w, h, .none, c, kind⟩
-    match avoidCollisions cur box cb false with
+    match avoidCollisions st.shapes box cb false with
     | .error e => .error e
-    | .ok p => .ok (⟨cur, st.top, p.y + h, [0]⟩, .replaced (p.x + ml) p.y w h)
+    | .ok p => .ok (⟨st.shapes, p.y + h, [0]⟩, .replaced (p.x + ml) p.y w h)
 
 def flowFrom (cb : CB) : FlowState → List Item → Except PyErr (List Placed)
   | _, [] => .ok []
@@ -367,6 +336,6 @@ def flowFrom (cb : CB) : FlowState → List Item → Except PyErr (List Placed)
       | .ok out => .ok (pl :: out)
 
 def flow (cb : CB) (shapes : List Shape) (y : Rat) (items : List Item) : Except PyErr (List Placed) :=
-  flowFrom cb ⟨shapes, shapes, y, []⟩ items
+  flowFrom cb ⟨shapes, y, []⟩ items
 
 end Wp.Floats
